@@ -4,7 +4,7 @@
 From Coq Require Import List NArith Bool String.
 From GQL Require Import Base.Bytes Types.Schema Types.Consistent Proofs.TypesReduce Proofs.TypesNames
   Proofs.TypesClosed Proofs.TypesView Proofs.TypesImpl Proofs.TypesMain Proofs.TypesPossible
-  Proofs.TypesConsistent Proofs.TypesOracle Proofs.TypesAppend.
+  Proofs.TypesConsistent Proofs.TypesOracle Proofs.TypesAppend Proofs.TypesFuel.
 Import ListNotations.
 Open Scope string_scope.
 Open Scope N_scope.
@@ -89,6 +89,24 @@ Theorem C11_type_map_is_reachable : forall fuel c sch, new_schema_fuel fuel c = 
 Proof. exact new_schema_map. Qed.
 Print Assumptions C11_type_map_is_reachable.
 
+(* Termination: the fuel NewSchema is run with (one more than the number of definitions, the
+   library's own included) is always enough -- the out-of-fuel result is unreachable -- and any
+   larger fuel gives the same result, so the fuel is not an observable of the model. *)
+Theorem C11_fuel_sufficient : forall c, new_schema c <> OutOfFuel.
+Proof. exact new_schema_terminates. Qed.
+Print Assumptions C11_fuel_sufficient.
+
+Theorem C11_fuel_irrelevant : forall fuel c, (List.length (c_defs c) < fuel)%nat ->
+  new_schema_fuel fuel c <> OutOfFuel /\ new_schema_fuel fuel c = new_schema c.
+Proof. intros fuel c H. split; [exact (new_schema_fuel_enough fuel c H)|exact (new_schema_fuel_irrelevant fuel c H)]. Qed.
+Print Assumptions C11_fuel_irrelevant.
+
+(* the same for AppendType on every schema NewSchema and earlier AppendType calls can have produced *)
+Theorem C11_fuel_sufficient_append : forall f0 f1 c sch0 ts0 sch ts,
+  new_schema_fuel f0 c = OK sch0 -> append_types_fuel f1 sch0 ts0 = OK sch -> append_types sch ts <> OutOfFuel.
+Proof. exact append_types_terminates. Qed.
+Print Assumptions C11_fuel_sufficient_append.
+
 (* ---------- non-vacuity ---------- *)
 Definition ex_cfg : config :=
   with_meta (Cfg
@@ -128,3 +146,8 @@ Example C11_nonvacuous_append :
   | _ => false
   end = true.
 Proof. vm_compute. reflexivity. Qed.
+
+(* the out-of-fuel result exists in the model: too little fuel does run out (and one unit per definition is enough) *)
+Example C11_nonvacuous_fuel :
+  new_schema_fuel 2 ex_cfg = OutOfFuel /\ (exists sch, new_schema_fuel (List.length (c_defs ex_cfg)) ex_cfg = OK sch).
+Proof. split; [vm_compute; reflexivity|vm_compute; eexists; reflexivity]. Qed.
